@@ -84,6 +84,10 @@ var c10Templates = []string{
 	`(set 'm2 (sorted-map)) (assoc! m2 "self" m2) (debug-print m2) (equal? m2 m2)`,
 	`(time:format-rfc3339 (time:parse-rfc3339 "2020-02-29T12:00:00Z"))`,
 	`(time:duration-s (time:parse-duration "1h30m"))`,
+	`(defun kf (&key a b) (list a b)) (handler-bind ((condition (lambda (c &rest args) (debug-print c args) (rethrow)))) (kf :zeta 1 :alpha 2 :mid 3 :omega 4 :b 5))`,
+	`((lambda (&key p q) p) :x1 1 :x2 2 :x3 3 :x4 4 :x5 5 :x6 6)`,
+	`(s:validate (s:make-validator s:sorted-map (s:no-other-keys (s:has-key "a"))) (sorted-map "a" 1 "z1" 1 "z2" 2 "z3" 3 "z4" 4 "z5" 5))`,
+	`(json:load-string "{\"a\":1,\"a\":2,\"b\":[}")`,
 }
 
 func c10Program(w interface{ RNG(int, string) *fw.RNG }, idx int) (src, label string, feats map[string]bool) {
@@ -221,8 +225,8 @@ func c10Aux(args []string) int {
 func c10Driver(d *fw.D) {
 	n := pick(d.Tier, 400, 6000)
 	confs := []struct {
-		name string
-		env  []string
+		name  string
+		env   []string
 		prior int
 	}{
 		{"GOMAXPROCS=1 GOGC=100 prior=0", []string{"GOMAXPROCS=1", "GOGC=100"}, 0},
